@@ -107,6 +107,8 @@ def handler : Handler := fun op j =>
     match scalarOf y with
     | none => some (err (if y.shape.head? == some 0 then "index" else "shape"))  -- `y[0]` / `.item()` raise
     | some a => some (ok (jF a))
+  | "call_keywords" => do   -- keywords of the inner scipy calls (source order)
+    some (ok (jObj [("minimize", jArr (minimizeCallKeywords.map jS)), ("minimize_scalar", jArr (minimizeScalarCallKeywords.map jS))]))
   | "routing" => do
     match field? j "callable" with
     | some _ => some (ok (jB (usesGradM String.toLower .callable)))
